@@ -837,6 +837,97 @@ def run_long_lived_loss(gap, timeouts):
     return viol
 
 
+def run_two_connections(first_lost, kinds):
+    """two connections in one process (a session and a system bus), each
+    with proxies that have disconnect callbacks, and an outstanding call on
+    each: losing one fires exactly its own, losing the other later exactly
+    the other's"""
+    from txdbus import interface as I
+    viol = []
+    ki = fakes.KnownInterfaces().__enter__()
+    worlds = {'A': fakes.ClientWorld(), 'B': fakes.ClientWorld()}
+    try:
+        iface = I.DBusInterface('org.ex.Two', I.Method('Ping', '', 's'))
+        fired = {}
+        calls = {}
+        keep = []
+        for tag, cw in worlds.items():
+            cw.sent()
+            for k, kind in enumerate(kinds):
+                got = []
+                cw.conn.getRemoteObject(
+                    'org.ex.Dest', '/o%d' % k,
+                    iface if kind == 'explicit' else 'org.ex.Two'
+                ).addCallback(got.append)
+                prox = got[0]
+                keep.append(prox)
+                key = '%s.proxy%d' % (tag, k)
+                fired[key] = []
+                prox.notifyOnDisconnect(
+                    lambda p_, r, key=key: fired[key].append(
+                        type(r.value).__name__))
+            key = tag + '.conn'
+            fired[key] = []
+            cw.conn.notifyOnDisconnect(
+                lambda c, r, key=key: fired[key].append(
+                    type(r.value).__name__))
+            calls[tag] = []
+            d = cw.conn.callRemote('/o', 'M', interface='a.b',
+                                   destination='c.d', timeout=5)
+            d.addCallbacks(lambda v, tag=tag: calls[tag].append('ok'),
+                           lambda f, tag=tag: calls[tag].append(
+                               type(f.value).__name__))
+            cw.sent()
+        order = [first_lost, 'B' if first_lost == 'A' else 'A']
+        lost = []
+        for tag in order:
+            worlds[tag].conn.connectionLost(fakes.lost_reason(
+                'lost-' + tag))
+            lost.append(tag)
+            want = {k: (['ConnectionLost'] if k[0] in lost else [])
+                    for k in fired}
+            wantc = {t: (['ConnectionLost'] if t in lost else [])
+                     for t in calls}
+            if fired != want or calls != wantc:
+                bad = sorted(k for k in fired if fired[k] != want[k]) + \
+                    sorted(t + '.call' for t in calls
+                           if calls[t] != wantc[t])
+                viol.append(('two-connections/%s' % (
+                    'other-connection-notified' if any(
+                        b[0] not in lost for b in bad) else 'own'),
+                    'connections A and B with %d proxies each (%s); lost so '
+                    'far: %r; callbacks fired %r, calls ended %r - wrong '
+                    'for %r' % (len(kinds), '/'.join(kinds), lost, fired,
+                                calls, bad)))
+                break
+        for cw in worlds.values():
+            cw.clock.advance(100)
+    except Exception as e:
+        viol.append(('two-connections/raises-%s' % type(e).__name__,
+                     '%r' % (e,)))
+    finally:
+        for cw in worlds.values():
+            cw.close()
+        ki.__exit__()
+    return viol
+
+
+def _task_two_connections(_):
+    res = core.Result()
+    for first in ('A', 'B'):
+        for kinds in (('explicit',), ('known',), ('explicit', 'known'),
+                      ('explicit', 'explicit', 'known')):
+            res.count('states')
+            res.count('transitions', 2)
+            res.count('evaluations', 2)
+            res.count('nontrivial')
+            for t, w in run_two_connections(first, kinds):
+                res.violation('%s/%s' % (PROP, t), w,
+                              {'part': 'two', 'args': [first, list(kinds)]},
+                              size=len(kinds))
+    return res
+
+
 def _task_long_lived(gap):
     res = core.Result()
     for timeouts in ((None, None), (5, None), (None, 5), (5, 7)):
@@ -870,7 +961,9 @@ def run(ctx):
         'with the reason, completed ones stay, no timer remains, every '
         'registered and not cancelled callback on the connection and on '
         'every live proxy runs exactly once, and nothing fires when the '
-        'clock is run out. C (long-lived process): a call outstanding '
+        'clock is run out. Two connections in one process, each with '
+        'proxies, callbacks and a call, lost one after the other. C '
+        '(long-lived process): a call outstanding '
         'while 254..257 / 65534..65537 further messages are built, a second '
         'call, then the loss' % (sorted(ENTRIES), ALL))
     ctx.assumptions = [
@@ -880,6 +973,7 @@ def run(ctx):
     n = ctx.jobs * 2
     ctx.map(_task_connect, [(ctx.quick, i, n) for i in range(n)])
     ctx.map(_task_reconnect, [0])
+    ctx.map(_task_two_connections, [0])
     from mcx import scale
     ctx.map(_task_long_lived, scale.LADDER_SMALL[3:] + scale.LADDER_WORD)
     if ctx.quick:
@@ -931,6 +1025,9 @@ def run(ctx):
 def replay(data):
     if 'scenario' in data:
         return explore.replay_violation(data)
+    if data.get('part') == 'two':
+        return [('%s/%s' % (PROP, t), w) for t, w in
+                run_two_connections(data['args'][0], tuple(data['args'][1]))]
     if data.get('part') == 'long-lived':
         return [('%s/%s' % (PROP, t), w)
                 for t, w in run_long_lived_loss(*data['args'])]
